@@ -30,6 +30,13 @@ func c18() []*Ob {
 		return false
 	}
 	return []*Ob{
+		{Prop: "C18", ID: "C18.9", Engine: "LOOPS(every element)", Floor: 1,
+			Desc: "a cleaning pass reaches every bucket: Cleaner.Cleanup has dropped the stale generations from the accounted size (markStale) before it walks the buckets, so the walk calls Cleanup on every bucket and has no early exit — a pass that stops once enough bytes were released leaves entries of stale generations alive in the buckets behind, which the accounted size no longer contains: the cache stays over its limit while reporting it is under",
+			Check: func(c *Ctx) {
+				if fn := c.Fn("(*cache.Cleaner).Cleanup"); fn != nil {
+					everyElementAsked(c, fn, MethodNamed("", "Cleanup"), "bucket.Cleanup", "entries of the generations already marked stale stay in the buckets that were not visited, unaccounted")
+				}
+			}},
 		{Prop: "C18", ID: "C18.7", Engine: "PAIR(two sites)", Floor: 1,
 			Desc:  "a cleaning pass can always get under the limit: markStale retires the last generation whenever the older ones did not free enough, or — if it spares a last generation below maxGenSize — maxGenSize is a plain fraction of the limit (no floor), so a spared generation cannot hold the cache over it",
 			Check: func(c *Ctx) { cleaningReachesLastGeneration(c) }},
